@@ -8,7 +8,7 @@ PATCH=$(realpath "$1"); TAG=$2; shift 2
 PROPS=${@:-$(seq -f 'C%02g' 1 20)}
 BIN=${VCBIN:-/verif/bin/verifcheck}
 WT=/tmp/wte/$TAG; T=/tmp/wte/$TAG.ev
-mkdir -p /tmp/wte; rm -rf $WT $T; git -C /repo worktree prune
+mkdir -p /tmp/wte; rm -rf "/tmp/wte/$TAG" "/tmp/wte/$TAG.ev"   # no `git worktree prune` here: it races with a parallel wt_eval that is just adding its worktree
 git -C /repo worktree add -q --detach $WT HEAD || exit 2
 if ! git -C $WT apply $PATCH 2>/dev/null; then echo "$TAG DOES-NOT-APPLY"; git -C /repo worktree remove --force $WT; exit 3; fi
 alarm=0
